@@ -9,7 +9,11 @@
 //	        {"op":"add","vm":-1,"kind":"c","name":"A","file":3,"route":"direct"|"parse"},
 //	        {"op":"goc"|"goi"|"pkg","vm":0,"name":"App\\P"},
 //	        {"op":"const","vm":0,"name":"K","val":5},{"op":"discard","t":0},
-//	        {"op":"script","vm":0}]}
+//	        {"op":"req_begin"}, ...ops..., {"op":"req_end"}]}
+//
+// req_begin ... req_end: the enclosed ops run INSIDE one request served by the real
+// std/net/http HotHandler.ServeHTTP (which creates the request-level TempVM): req_begin is observed as the
+// creation of the next TempVM (the handler function's ctx.GetVM()), req_end as its discarding.
 //
 // vm = -1 is the base VM, t >= 0 the t-th TempVM created by "newtemp".
 // A definition is identified by the id of the source file it came from (GetFrom().GetSource()):
@@ -19,6 +23,7 @@ package main
 import (
 	"encoding/json"
 	"fmt"
+	"net/http/httptest"
 	"os"
 	"path/filepath"
 	"strconv"
@@ -30,6 +35,7 @@ import (
 	"github.com/php-any/origami/node"
 	"github.com/php-any/origami/parser"
 	"github.com/php-any/origami/runtime"
+	ohttp "github.com/php-any/origami/std/net/http"
 )
 
 type CP struct {
@@ -80,6 +86,9 @@ type world struct {
 	tp     []*parser.Parser  // parser bound to temp t (nil until prepared)
 	c      *Case
 	cpfile map[string]int
+	all    []*runtime.TempVM // every TempVM a request ever ran on
+	hot    *ohttp.HotHandler
+	hotCtx data.Context
 	thrown data.Control // last control handed to VM.ThrowControl (Program.GetValue reports throws there)
 }
 
@@ -358,6 +367,93 @@ func cpDir(cps []CP) (string, map[string]int, error) {
 	return dir, files, nil
 }
 
+// reqHandler is the ($r, $w) handler function a HotHandler serves: it runs the ops of one request on the
+// VM of its request context.
+type reqHandler struct {
+	w     *world
+	ops   []Op
+	steps []Step
+}
+
+func (h *reqHandler) GetName() string { return "c12handler" }
+func (h *reqHandler) GetParams() []data.GetValue {
+	return []data.GetValue{node.NewParameter(nil, "r", 0, nil, nil), node.NewParameter(nil, "w", 1, nil, nil)}
+}
+func (h *reqHandler) GetVariables() []data.Variable {
+	return []data.Variable{node.NewVariable(nil, "r", 0, nil), node.NewVariable(nil, "w", 1, nil)}
+}
+func (h *reqHandler) Call(ctx data.Context) (data.GetValue, data.Control) {
+	w := h.w
+	st := Step{D: -1}
+	vm := ctx.GetVM()
+	tv, ok := vm.(*runtime.TempVM)
+	if !ok {
+		st.R = 1
+		st.Msg = fmt.Sprintf("request runs on %T, want a request-level *runtime.TempVM", vm)
+		tv = runtime.NewTempVM(w.base).(*runtime.TempVM)
+	}
+	for _, old := range w.all {
+		if old == tv {
+			st.R = 1
+			st.Msg = "request runs on a TempVM an earlier request already used"
+		}
+	}
+	w.all = append(w.all, tv)
+	w.temps = append(w.temps, tv)
+	w.tp = append(w.tp, nil)
+	st.Look = w.sweep()
+	h.steps = append(h.steps, st)
+	for _, o := range h.ops {
+		s := w.doOp(o)
+		s.Look = w.sweep()
+		h.steps = append(h.steps, s)
+	}
+	return nil, nil
+}
+
+// serveRequest: one request through the real HotHandler; returns the steps for req_begin, the inner ops and req_end
+func (w *world) serveRequest(ops []Op) (steps []Step) {
+	fn := &reqHandler{w: w, ops: ops}
+	if w.hot == nil {
+		serverCtx := w.base.CreateContext(nil)
+		w.hotCtx = serverCtx.CreateContext(fn.GetVariables())
+	}
+	// one HotHandler VALUE per request function, all sharing the server's long-lived handler context
+	h := ohttp.HotHandler{Value: fn, Ctx: w.hotCtx}
+	w.hot = &h
+	end := Step{D: -1}
+	func() {
+		defer func() {
+			if r := recover(); r != nil {
+				end.R = 2
+				end.Msg = fmt.Sprint(r)
+			}
+		}()
+		h.ServeHTTP(httptest.NewRecorder(), httptest.NewRequest("GET", "/c12", nil))
+	}()
+	steps = fn.steps
+	if len(steps) == 0 {
+		// the handler never ran: still account for the begin step and the skipped ops
+		steps = append(steps, Step{R: 2, D: -1, Msg: "handler did not run", Look: w.sweep()})
+		for range ops {
+			steps = append(steps, Step{R: 2, D: -1, Look: w.sweep()})
+		}
+		end.Look = w.sweep()
+		return append(steps, end)
+	}
+	// the request is over: its TempVM is dropped
+	t := len(w.temps) - 1
+	w.temps[t] = nil
+	w.tp[t] = nil
+	// the server's own context must still be bound to the base VM
+	if w.hotCtx.GetVM() != data.VM(w.base) && end.R == 0 {
+		end.R = 1
+		end.Msg = fmt.Sprintf("handler context is bound to %T after serving, want the base VM", w.hotCtx.GetVM())
+	}
+	end.Look = w.sweep()
+	return append(steps, end)
+}
+
 func runCase(c *Case) (obs Obs) {
 	defer func() {
 		if r := recover(); r != nil {
@@ -386,7 +482,17 @@ func runCase(c *Case) (obs Obs) {
 	}
 	// step 0: the initial world
 	obs.Steps = append(obs.Steps, Step{D: -1, Look: w.sweep()})
-	for _, o := range c.Ops {
+	for i := 0; i < len(c.Ops); i++ {
+		o := c.Ops[i]
+		if o.Op == "req_begin" {
+			j := i + 1
+			for j < len(c.Ops) && c.Ops[j].Op != "req_end" {
+				j++
+			}
+			obs.Steps = append(obs.Steps, w.serveRequest(c.Ops[i+1:j])...)
+			i = j
+			continue
+		}
 		st := w.doOp(o)
 		st.Look = w.sweep()
 		obs.Steps = append(obs.Steps, st)
